@@ -24,6 +24,9 @@ RULE = ('1..4 fake modules (0..4 parameters each: no read function / plain read 
         'start-up; explicit durations of the driver functions of specific modules (an earlier module whose doPoll lasts '
         'longer than its poll interval for a while and a later module with a long interval; a first module whose pass '
         'through its slow polls exceeds its slowinterval and further modules with slow-polled parameters); '
+        'start-up reads abandoned after a communication failure (polled parameters that were never announced when the '
+        'main loop starts); modules with enablePoll = False and a configured write sharing the thread with polled ones, '
+        'with run-time requests addressed to them; '
         'a case is non-trivial when the poller made at least 3 calls; distinct = distinct '
         '(module descriptors, consumed scripts, actions) tuples')
 ASSUMPTIONS = [
@@ -359,7 +362,8 @@ def run_case(case):
                                'last_slow': _ticks(pi.last_slow), 'fast': bool(pi.fast_flag),
                                'pending': sorted(pi.pending_errors),
                                'polled': [_pidx(r.__name__) for _, r, _ in pi.polled_parameters],
-                               'ts': [_ticks(m.parameters[f'p{i}'].timestamp) for i in range(len(case['mods'][len(pinfos)]['params']))]})
+                               'ts': [_ticks_opt(m.parameters[f'p{i}'].timestamp)
+                                      for i in range(len(case['mods'][len(pinfos)]['params']))]})
         return {'log': run.log, 'end': end, 'started': started, 'now': run.now, 'used': run.used,
                 'pinfo': pinfos, 'fired': run.fired, 'calls': run.calls, 'waits': run.waits, 'flag': run.flag,
                 'alive': len(modlist) > 0}
@@ -371,6 +375,14 @@ def _pidx(name):
     """read_p<i> -> i; any other read function (never expected in the poll list) -> 99"""
     tail = name[len('read_p'):]
     return int(tail) if name.startswith('read_p') and tail.isdigit() else 99
+
+
+def _ticks_opt(x):
+    """time stamp of a parameter; anything that is not a number (e.g. None as "never announced") is recorded as None,
+    it is data about the code under test and must not stop the driver"""
+    if isinstance(x, bool) or not isinstance(x, (int, float)):
+        return None
+    return _ticks(x)
 
 
 def _ticks(x):
@@ -452,7 +464,7 @@ def enc_pinfo(p):
             'o_polled := %s; o_ts := %s |})' % (
                 gal.z(p['interval']), gal.z(p['last_main']), gal.z(p['last_slow']), gal.boolean(p['fast']),
                 gal.lst([_fid(n) for n in p['pending']], gal.nat), gal.lst(p['polled'], gal.nat),
-                gal.lst(p['ts'], gal.z)))
+                gal.lst([-1 if t is None else t for t in p['ts']], gal.z)))     # None: never equal to the model's
 
 
 def encode(case, obs):
@@ -522,6 +534,15 @@ def oracle(case, obs):
             m, i = e[2], e[3]
             if not mods[m]['enable'] or i not in spec_polled(mods[m]):
                 fail('nopoll-read', f'the poller called read_p{i} of module {m}, which is not a polled parameter (t={e[1]})')
+
+    # --- modules marked as not polled (enablePoll = False) are never polled: the poller calls neither their doPoll
+    # (and so none of the read functions doPoll would call) nor any of their read functions; the configured write and
+    # initialReads at start-up are not polls
+    for e in log:
+        if e[0] in ('main', 'mread') and not mods[e[2]]['enable']:
+            what = 'doPoll' if e[0] == 'main' else f'read_p{e[3]} (inside doPoll)'
+            fail('nopoll-module-polled', f'the poller called {what} of module {e[2]}, which has enablePoll = False '
+                 f'(t={e[1]})')
 
     # duration bound of one call of a poll function, as observed
     D = max([c[4] - c[3] for c in obs['calls'] if c[4] is not None] + [0])
@@ -888,6 +909,78 @@ def slow_overload_case(rng):
             'script': [[1, rand_outcome(rng, p_err)] for _ in range(rng.randint(0, 40))], 'actions': []}
 
 
+def startup_abandoned_case(rng):
+    """the start-up reads are abandoned after a communication failure (raised by a first read, or by initialReads so
+    that NO first read is made): the polled parameters behind the failing call are never announced before the main loop
+    starts, and its slow-poll due test meets them with the time stamp they were created with.  Afterwards the hardware
+    answers (mostly), enough turns for every parameter to get its slow poll"""
+    nm = rng.choice([1, 2, 2, 3])
+    mods = []
+    for k in range(nm):
+        np_ = rng.randint(1, 3)
+        mods.append({'enable': True, 'pi': rng.choice([S // 2, S, 2 * S]), 'si': rng.choice([S // 2, S, 2 * S]),
+                     'winit': rng.random() < 0.15, 'iread': False, 'main': [],
+                     'params': [{'kind': rng.choice(['read', 'read', 'handler']), 'nopoll': False} for _ in range(np_)]})
+    if rng.random() < 0.3:
+        mods[0]['main'] = [0]
+    d = rng.choice([1, S // 16, S // 8])
+    kind = rng.choice(['comm', 'comm', 'silent'])
+    nstart = sum(1 for m in mods if m['winit'])
+    if rng.random() < 0.25:
+        mods[rng.randrange(nm)]['iread'] = True          # initialReads raises: every first read is skipped
+        script = [[d, [kind, 0]] for _ in range(nstart + 1)]
+    else:
+        npol = sum(len(m['params']) for m in mods)
+        k = rng.randrange(0, max(1, npol - 1))            # the k-th first read fails, at least one read is skipped
+        script = [[d, 'ok'] for _ in range(nstart + k)] + [[d, [kind, 0]]]
+    p_err = rng.choice([0.0, 0.0, 0.15])
+    script += [[d, rand_outcome(rng, p_err)] for _ in range(rng.randint(0, 30))]
+    return {'t0': rng.choice([1000 * S, 12345 * S + 513]), 'eps': rng.choice([1, 1, 0, 2]), 'turns': rng.randint(4, 24),
+            'reconn': rng.random() < 0.5, 'mods': mods, 'script': script, 'actions': []}
+
+
+def nopoll_module_case(rng):
+    """one poll thread shared by polled modules and modules with enablePoll = False which are on the thread only because
+    a configured value has to be written at start-up (Module.initModule: `if self.enablePoll or self.writeDict`).  The
+    modules that are not polled have read functions, a doPoll reading some of them and short poll intervals (so that
+    they would be due at once if the poller looked at them); run-time requests (trigger, setFastPoll, pollinterval
+    change, reconnect) are also addressed to them"""
+    nm = rng.choice([2, 2, 3, 4])
+    off = set(rng.sample(range(nm), rng.randint(1, nm - 1)))
+    mods = []
+    for k in range(nm):
+        np_ = rng.randint(0, 3)
+        params = [{'kind': rng.choice(['read', 'read', 'handler', 'common', 'none']), 'nopoll': rng.random() < 0.15}
+                  for _ in range(np_)]
+        firstc = [i for i, p in enumerate(params) if p['kind'] == 'common'][:1]
+        readable = [i for i, p in enumerate(params) if p['kind'] in ('read', 'handler')] + firstc
+        if k in off:
+            mods.append({'enable': False, 'pi': rng.choice([0, S // 8, S // 4, S]), 'si': rng.choice([S // 4, S // 2, S]),
+                         'winit': rng.random() < 0.9, 'iread': rng.random() < 0.15,
+                         'main': [i for i in readable if rng.random() < 0.5], 'params': params})
+        else:
+            mods.append({'enable': True, 'pi': rng.choice([S // 4, S, 2 * S]), 'si': rng.choice([S // 2, S, 4 * S]),
+                         'winit': rng.random() < 0.2, 'iread': False,
+                         'main': [i for i in readable if rng.random() < 0.2], 'params': params})
+    t0 = rng.choice([1000 * S, 12345 * S + 513])
+    acts = []
+    mpi = [m['pi'] for m in mods]
+    t = t0
+    for _ in range(rng.choice([0, 0, 1, 2, 3])):
+        t += rng.choice([1, S // 4, S, 3 * S])
+        m = rng.choice(sorted(off)) if rng.random() < 0.7 else rng.randrange(nm)
+        v = rng.choice([x for x in PI_CHOICES if x != mpi[m]])     # an unchanged value is no change request
+        a = rng.choice([[t, 'trig', m, True], [t, 'trig', m, False], [t, 'fast', m, True, S // 8],
+                        [t, 'fast', m, False, S // 4], [t, 'setint', m, v], [t, 'reconn']])
+        if a[1] == 'setint':
+            mpi[m] = v
+        acts.append(a)
+    p_err = rng.choice([0.0, 0.0, 0.2, 0.4])
+    return {'t0': t0, 'eps': rng.choice([1, 1, 0, 2]), 'turns': rng.randint(4, 25), 'reconn': rng.random() < 0.5,
+            'mods': mods, 'script': [[rng.choice([1, 2, S // 16, S // 8]), rand_outcome(rng, p_err)]
+                                     for _ in range(rng.randint(0, 40))], 'actions': acts}
+
+
 def small_scope_cases():
     """exhaustive small scope: one module, one parameter of every kind, every outcome class at each of the first
     calls, the three interval regimes"""
@@ -923,6 +1016,10 @@ def gen_cases(seed, tier):
     for _ in range(n // 50):
         cases.append(long_main_case(rng3))
         cases.append(slow_overload_case(rng3))
+    rng4 = random.Random(seed * 15485863 + 1337)
+    for _ in range(n // 50):
+        cases.append(startup_abandoned_case(rng4))
+        cases.append(nopoll_module_case(rng4))
     cases.extend(small_scope_cases() if tier != 'quick' else small_scope_cases()[::5])
     return cases
 
